@@ -178,7 +178,7 @@ func checkEventConformance(e cadence.Event) string {
 			return fmt.Sprintf("%s: duplicate field %s", e.EventType.ID(), f.Identifier)
 		}
 		seen[f.Identifier] = true
-		if why := conforms(vals[i], f.Type); why != "" {
+		if why := conformsField(vals[i], f.Type); why != "" {
 			return fmt.Sprintf("%s.%s: value %s does not conform to %s: %s", e.EventType.ID(), f.Identifier, Canon(vals[i]), typeID(f.Type), why)
 		}
 	}
@@ -186,6 +186,29 @@ func checkEventConformance(e cadence.Event) string {
 }
 
 var intRanges = map[string][2]string{}
+
+// conformsField: an event argument is converted to its parameter type when the event is created, so at the top level of a field the
+// optional nesting is exact (an `Int?` argument for an `Int??` parameter arrives as Optional(Optional(Int))). Below the optionals
+// the covariance-tolerant relation `conforms` applies.
+func conformsField(v cadence.Value, t cadence.Type) string {
+	if ot, ok := t.(*cadence.OptionalType); ok {
+		o, isOpt := v.(cadence.Optional)
+		if !isOpt {
+			return "expected an optional (declared " + typeID(t) + "), got an unboxed " + fmt.Sprintf("%T", v)
+		}
+		if o.Value == nil {
+			return ""
+		}
+		if _, innerOpt := ot.Type.(*cadence.OptionalType); innerOpt {
+			return conformsField(o.Value, ot.Type)
+		}
+		if _, stillOpt := o.Value.(cadence.Optional); stillOpt && typeID(ot.Type) != "AnyStruct" && typeID(ot.Type) != "AnyResource" {
+			return "more optional levels than declared (" + typeID(t) + ")"
+		}
+		return conforms(o.Value, ot.Type)
+	}
+	return conforms(v, t)
+}
 
 // conforms is an independent conformance relation between exported values and exported types.
 // It returns "" if v conforms to t, else a reason. It is conservative: for type kinds it does not know
